@@ -19,7 +19,7 @@ def ST_vec {n : Nat} (x : Fin n → α) (u : α) : Fin n → α := fun i => STv1
 /-- `BST(x, u, positive=False)` -/
 def BST0 {n : Nat} (x : Fin n → α) (u : α) : Fin n → α :=
   let nx := norm2 x
-  if nx < u then fun _ => 0 else fun i => (1 - u / nx) * x i
+  if nx ≤ u then fun _ => 0 else fun i => (1 - u / nx) * x i
 
 /-- `BST(x, u, positive)`; for `positive` the norm is that of the strictly positive entries,
     the other entries are set to zero. -/
